@@ -44,4 +44,9 @@ int tbl_write(const hist_t* h, uint8_t** img, size_t* len, carquet_status_t* st,
 /* same, into a path */
 int tbl_write_path(const hist_t* h, const char* path, carquet_status_t* st, const char** where);
 carquet_schema_t* tbl_schema(const hist_t* h);
+/* General executor: writes to `f` (create_file) or to `path` (create).  Executes writer operations (each write_batch,
+ * new_row_group and the final close counts as one) and, when stop_after >= 0, calls carquet_writer_abort instead of
+ * operation number stop_after.  Reports the first non-OK status. */
+typedef struct { carquet_status_t status; const char* where; int nops; int failed_op; bool aborted; bool created; } tbl_result;
+void tbl_exec(const hist_t* h, FILE* f, const char* path, int stop_after, tbl_result* r);
 #endif
